@@ -75,6 +75,10 @@ def iter_fasta(f, comments=None):
             if comments is not None:
                 comments.append(line)
         else:
+            if data is None:
+                if line.strip() == '':
+                    continue  # blank line before the first header
+                raise ValueError('FASTA file does not start with a header line')
             data.append(line.strip())
     if data is not None:
         yield _create_bioseq(data, id_, header)
